@@ -87,7 +87,11 @@ def main(argv=None):
     for o in ctx.knowns:
         print(f'KNOWN-FINDING: property={prop} {o.rule} {o.site} {o.what}')
     if ctx.failures:
+        done = set()
         for o in ctx.failures:
+            if o.key in done:
+                continue
+            done.add(o.key)
             path = write_replay(ctx, o)
             print(f'VIOLATION property={prop} replay={path}')
             print(f'  {o.rule} {o.site}: {o.what}')
